@@ -13,9 +13,9 @@ def configs(ctx):
     for b in biorts:
         for colour in (False, True):
             C = 3 if colour else 2
-            for (H, W) in ((8, 8), (6, 10), (7, 9), (2, 4), (12, 5)) + (((16, 12), (3, 3)) if not ctx.quick else ()):
+            for (H, W) in ((8, 8), (6, 10), (7, 9), (2, 4), (12, 5)) + (((16, 12), (3, 3), (20, 20), (9, 14), (4, 4), (1, 6), (5, 5), (24, 10)) if not ctx.quick else ()):
                 items.append((1, b, H, W, C, colour, 1))
-            for (H, W) in ((8, 16), (16, 8), (11, 13), (6, 20), (3, 9), (2, 8), (8, 2)) + (((24, 24), (9, 17)) if not ctx.quick else ()):
+            for (H, W) in ((8, 16), (16, 8), (11, 13), (6, 20), (3, 9), (2, 8), (8, 2)) + (((24, 24), (9, 17), (16, 16), (12, 28), (32, 8), (5, 5), (13, 21)) if not ctx.quick else ()):
                 if ctx.quick and b != 'near_sym_a' and (H, W) not in ((8, 16), (11, 13)):
                     continue
                 items.append((2, b, H, W, C, colour, 1))
